@@ -100,6 +100,28 @@ CHECKS = {
         note="exchange character set / 32-character limit as documented in the repository; uniqueness across threads is a bounded stress test",
         design="4/C19",
     ),
+    "C13": dict(
+        category="exploration",
+        technique="metamorphic testing over Hypothesis-generated simulation runs ({A} vs {A,B} vs {B,A} vs {A,B,C} vs {C,B,A}) "
+                  "plus fault injection at generated callback invocations",
+        text="A's normalised ledger must be identical alone and alongside other strategies in every registration order "
+             "(generic scripts and a focused same-runner resting-order shape); an exception injected into another strategy's "
+             "callback or a middleware call must leave A's ledger, every strategy's update sequence and order-state invariants "
+             "unchanged; raw-data / sports-data / custom-event dispatch is driven directly on a live Flumine. Held on everything explored.",
+        note="process_closed_market is outside the property's list of contained callbacks",
+        design="4/C13",
+    ),
+    "C14": dict(
+        category="exploration",
+        technique="Hypothesis-generated multi-file runs with an independent listener-filter oracle, delivery/chronology "
+                  "invariants, delivered-book == input-ledger comparison, repeated in-process runs and differential runs in "
+                  "fresh subprocesses (different PYTHONHASHSEED, shifted wall clock)",
+        text="Exactly-once delivery in file order per market, non-decreasing publish time inside event groups, clock == publish "
+             "time, datetime restored after normal and exceptional exit, identical ledgers across repeated runs and across two "
+             "fresh processes per sampled case. Held on everything explored.",
+        note="subprocess comparison is a sample (40 cases quick / 1500 thorough); filter oracle written from the documented semantics",
+        design="4/C14",
+    ),
 }
 
 NOT_BUILT_REASON = "check not built yet (build in progress; see DESIGN.md section 4)"
